@@ -76,7 +76,7 @@ pub fn generate(rng: &mut Rng) -> NetScenario {
     }
     NetScenario {
         seed: rng.next_u64(),
-        cfg: NetCfg { secret, expiry: None, max_frame: None, timeout_ns: secs(120), proxy, limiter: None, use_start: false, agones: false, secret_source: None },
+        cfg: NetCfg { secret, expiry: None, max_frame: None, timeout_ns: secs(120), proxy, limiter: None, use_start: false, agones: false, secret_source: None, localization_from_services: false },
         wall,
         services,
         clients,
